@@ -12,17 +12,28 @@ CFG = {
     "n": {"quick": 2500, "thorough": 60000},
     "exhaustive": {"quick": False, "thorough": True},
     "shrink": False,
-    "rule": "corpus (defects 27/28, loops, sharing; chains.case = the chain family below) + chain family (every reference-chain "
+    "rule": "corpus (defects 27/28, loops, sharing; chains.case = the chain family below; longchains.case = 16/17/18 links, "
+            "tails 16/17 into a cycle, 16/17 links to an undefined object at each position + the one-page document with its own "
+            "/Resources behind 16/17/200 links under a root that declares other fonts) + chain family (every reference-chain "
             "shape: direct, acyclic chain of 1-4 links, self loop, cycle of 2/3 through the start, lasso with tail 1-3 into a cycle of "
-            "1-3 not containing the start, dangling after 0-2 links, at each of 12 positions: root /Kids, node /Kids, /Contents, "
-            "/Contents array, /Contents element, root /Resources, page /Resources, /Font value, font entry, /Encoding, "
-            "/FontDescriptor, /FontFile2; 234 graphs tagged any + 150 tagged tc where the real check_type accepts; a case the "
-            "implementation does not finish is reported as hang/crash = bad) + small family (root and one inner node with every kids list of "
+            "1-3 not containing the start, dangling after 0-2 links, at each of 14 positions: root /Kids, node /Kids, kid entry, "
+            "/Contents, /Contents array, /Contents element, root /Resources, node /Resources, page /Resources, /Font value, "
+            "font entry, /Encoding, /FontDescriptor, /FontFile2; 277 graphs tagged any + 171 tagged tc where the real check_type "
+            "accepts; a case the implementation does not finish is reported as hang/crash = bad) + long-chain family (systematic "
+            "sweep, at each of the 14 positions: an acyclic chain of EVERY length 0..40 and of 64, 100, 300 links in front of the "
+            "value; the same 44 lengths as the tail in front of a cycle of 1-3 links (one cycle length per tail in quick, all three "
+            "in thorough) and as the number of links in front of an undefined object; the root always declares font F1, the inner "
+            "node's own resources are F3 and the page's own are F2, so a resolver that gives up on a long chain shows up as "
+            "wrongly inherited resources, and as a spurious error under /Kids /Contents /Font /Encoding; the oracle dereferences "
+            "with no bound other than the number of defined objects = cycle detection; 1845 graphs in quick, 3077 in thorough, "
+            "tagged tc where the real check_type accepts) + small family (root and one inner node with every kids list of "
             "length <=2 over {root,node,4,5} x 3 shapes of object 4 x 4 resource placements: direct / 1 link / 2 links; "
             "every 7th in quick, all 5292 in thorough) + random page trees (depth <=3, fan-out <=3, /Kids /Contents "
             "/Resources /Font /Encoding behind 0-3 links, fonts direct or indirect): 33% type-correct by construction "
             "(tag tc: the REAL check_type(catalog_type) must accept, else the case is flagged), 17% plus a shared or "
-            "cyclic kid, 17% with a random chain shape at a random chain position (tc when the checker does not constrain it), "
+            "cyclic kid, 17% with a random chain shape at a random chain position (tc when the checker does not constrain it; half of them a long "
+            "shape: chain / tail into a cycle / dangling with 0-47, 64, 100 or 300 links), every generated /Kids /Contents "
+            "/Resources /Font chain is long (4-44 links) one time in 20, "
             "33% with one single-rule damage (self-referential or 2-cyclic /Kids /Contents /Resources object, "
             "dangling reference, missing/ill-typed key, defective font). Non-trivial = expected DOM has >=3 records "
             "including an inner node, or the graph contains a top-level reference object (chain link or loop).",
